@@ -2,13 +2,44 @@
 
 package api
 
-import "database/sql"
+import (
+	"context"
+	"database/sql"
+
+	"github.com/basekick-labs/arc/internal/ingest"
+	"github.com/basekick-labs/arc/pkg/models"
+)
 
 // C29 verification hooks (injected by /verif's build overlay; never part of /repo).
 
 // VerifAggFault, when non-nil, is consulted at the top of executeAggregation (fault point inserted by
 // props/C29.py's SPEC.rewrite). A non-nil error makes the aggregation fail before it touches DuckDB.
 var VerifAggFault func(cqName string) error
+
+// VerifWriteFault, when non-nil and returning an error, makes the destination write of
+// executeAggregation reject the rows (the call `h.arrowBuffer.WriteColumnarRecord(ctx, cq.Database,
+// record)` is rewritten into verifWrite(h.arrowBuffer, …) by props/C29.py).
+var VerifWriteFault func() error
+
+// Ground truth for the monitors: how many destination writes of executeAggregation were accepted /
+// rejected (by the fault or by the real ArrowBuffer) since the harness last reset the counters.
+var VerifWriteOK, VerifWriteRejected int
+
+func verifWrite(ab *ingest.ArrowBuffer, ctx context.Context, database string, record *models.ColumnarRecord) error {
+	if VerifWriteFault != nil {
+		if err := VerifWriteFault(); err != nil {
+			VerifWriteRejected++
+			return err
+		}
+	}
+	err := ab.WriteColumnarRecord(ctx, database, record)
+	if err != nil {
+		VerifWriteRejected++
+	} else {
+		VerifWriteOK++
+	}
+	return err
+}
 
 // VerifSQLite exposes the handler's SQLite handle (read-only use by the harness).
 func (h *ContinuousQueryHandler) VerifSQLite() *sql.DB { return h.sqliteDB }
